@@ -125,9 +125,9 @@ Record session := {
 Definition new_session : session :=
   {| se_parts := []; se_position := O; se_language := []; se_vars := [] |}.
 
-(* Session::set_text (session.rs:41-48): the cursor is NOT reset *)
+(* Session::set_text (session.rs:41-49): the cursor is rewound *)
 Definition set_text (se : session) (text : str) : session :=
-  {| se_parts := split_lines text []; se_position := se_position se;
+  {| se_parts := split_lines text []; se_position := O;
      se_language := se_language se; se_vars := se_vars se |}.
 
 Definition set_language (se : session) (lang : str) : session :=
